@@ -69,7 +69,7 @@ def gen_history(rng, length, cli):
         elif cli:
             ops.append(("cli", rng.choice(["full", "incremental", "merge"])))
         else:
-            ops.append(rng.choice([("full",), ("incr",), ("incr",), ("merge", 0), ("merge", rng.choice([1, 3, 7, 14, 45])), ("merge", rng.choice([3, 10]))]))
+            ops.append(rng.choice([("full",), ("incr",), ("incr",), ("merge", 0), ("merge", rng.choice([1, 3, 7, 14, 45])), ("merge", rng.choice([3, 10])), ("merge_m", rng.choice([1, 1, 2]))]))
     return {"gran": g, "ops": ops, "cli": cli}
 
 
@@ -93,6 +93,14 @@ def corpus_histories():
                     ops += [("append", rows), m]
                 ops.append(c_)
                 out.append({"gran": GRANS[(len(out)) % 3], "ops": ops, "cli": False})
+    # calendar lookbacks: the window of a '1 month' lookback starts one CALENDAR month before the watermark; a change in exactly that first
+    # bucket (after a 31-day, a 30-day and a 29-day month) must be picked up
+    for (y, m, d) in ((2024, 2, 15), (2024, 3, 31), (2024, 5, 1), (2024, 3, 1)):
+        wm = dn(datetime.date(y, m, d))
+        first = dn(datetime.date(y, m - 1, min(d, [31, 29, 31, 30, 31, 30, 31, 31, 30, 31, 30, 31][m - 2])))
+        for g in ("day", "month"):
+            out.append({"gran": g, "cli": False, "ops": [("append", [(1, first - 40, 0, 3), (2, first, 0, 10), (3, first + 5, 1, 4), (4, wm, 0, 7)]), ("full",),
+                                                         ("update", {2: 99}), ("append", [(5, first, 1, 6)]), ("merge_m", 1), ("merge_m", 1)]})
     return out
 
 
@@ -112,10 +120,12 @@ Fixpoint trace (tr : Z -> Z) (h : list op) (s : state) : list (list (Z * Z * Z *
 """
 
 
-def coq_history(h):
-    """Coq op list equivalent to the history: base changes become SetBase <whole table>."""
+def coq_history(h, month_days=()):
+    """Coq op list equivalent to the history: base changes become SetBase <whole table>.  A calendar lookback ('1 month') is the number of days
+    between the watermark and the watermark minus the interval, as the database computed it when the step ran (month_days, in step order)."""
     base = {}
     ops = []
+    md = list(month_days)
     for op in h["ops"]:
         if op[0] == "append":
             for (i, d, c, v) in op[1]:
@@ -132,6 +142,8 @@ def coq_history(h):
             ops.append("Incr")
         elif op[0] == "merge":
             ops.append("Merge %d" % op[1])
+        elif op[0] == "merge_m":
+            ops.append("Merge %d" % md.pop(0))
         elif op[0] == "cli":
             ops.append({"full": "CliFull", "incremental": "CliIncr", "merge": "CliMerge"}[op[1]])
     return "trace (truncd %s) [%s] {| base := []; rollup := None |}" % (GCOQ[h["gran"]], "; ".join(ops))
@@ -216,6 +228,8 @@ def run_impl(h, workdir):
         with open(os.path.join(md, "m.yml"), "w") as f:
             f.write(YAML % g)
     steps = []
+    month_days = []
+    h["_month_days"] = month_days
     prev_refresh_changed = True
     for op in h["ops"]:
         if op[0] == "append":
@@ -240,9 +254,13 @@ def run_impl(h, workdir):
         kind = op[0] if op[0] != "cli" else "cli-" + op[1]
         if kind in ("full", "cli-full"):
             expect = "full"
-        elif kind in ("merge", "cli-merge"):
-            L = op[1] if kind == "merge" else 0
-            w = Wd - datetime.timedelta(days=L)
+        elif kind in ("merge", "cli-merge", "merge_m"):
+            if kind == "merge_m":
+                w = con.execute("select (cast(? as timestamp) - interval '%d month')::date" % op[1], [Wd]).fetchone()[0]
+                month_days.append((Wd - w).days)
+            else:
+                L = op[1] if kind == "merge" else 0
+                w = Wd - datetime.timedelta(days=L)
             if not exists:
                 below = con.execute("select count(*) from ev where date_trunc('%s', d) < ?" % g, [w]).fetchone()[0]
                 expect = "full" if below == 0 else None
@@ -274,10 +292,11 @@ def run_impl(h, workdir):
                 steps.append({"op": op, "rollup": "CLI-ERROR %s" % res.output[-300:], "expect": expect, "full": None, "before": before, "existed": exists})
                 continue
         else:
-            mode = {"full": "full", "incr": "incremental", "merge": "merge"}[op[0]]
+            mode = {"full": "full", "incr": "incremental", "merge": "merge", "merge_m": "merge"}[op[0]]
             src = pre.generate_materialization_sql(model) if mode == "full" else source_sql(model, pre, ">" if mode == "incremental" else ">=")
             pre.refresh(connection=con, source_sql=src, table_name="ev_preagg_r", mode=mode,
-                        watermark_column=None if mode == "full" else "d_%s" % g, lookback=("%d days" % op[1]) if op[0] == "merge" and op[1] else None)
+                        watermark_column=None if mode == "full" else "d_%s" % g,
+                        lookback=("%d days" % op[1]) if op[0] == "merge" and op[1] else ("%d month" % op[1]) if op[0] == "merge_m" else None)
         after = sorted(fetch_rollup(con, g))
         steps.append({"op": op, "rollup": after, "expect": expect, "full": fresh_full(con, model, pre, g), "before": before, "existed": exists})
         con.execute("drop table ev_synced")
@@ -402,16 +421,17 @@ def run(c):
         max_len = 8 if c.tier == "quick" else 14
         hs = corpus_histories() + [gen_history(c.rng, c.rng.randint(2, max_len), cli=(i % 4 == 3)) for i in range(n_hist)]
         model_ok = lib.coq_make(["Model/Refresh.vo", "Base/Calendar.vo"])[0]
+        all_steps = [run_impl(h, workdir) for h in hs]          # the implementation first: calendar lookbacks get their day counts from the run
         traces = None
         if model_ok:
             try:
-                traces = [parse_coq(x) for x in lib.coq_eval("c18_hist", PREAMBLE, [coq_history(h) for h in hs], chunk=25)]
+                traces = [parse_coq(x) for x in lib.coq_eval("c18_hist", PREAMBLE, [coq_history(h, h.get("_month_days", ())) for h in hs], chunk=25)]
             except Exception as e:
                 c.obligation("model evaluation", False, "correspondence", repr(e)[-1500:])
         mism, nsteps, expected_steps = [], 0, 0
         ops_seen = {}
         for k, h in enumerate(hs):
-            steps = run_impl(h, workdir)
+            steps = all_steps[k]
             nsteps += len(steps)
             for st in steps:
                 kk = st["op"][0] if st["op"][0] != "cli" else "cli-" + st["op"][1]
